@@ -147,11 +147,16 @@ Proof.
     rewrite IH; [reflexivity| cbn in Hf; lia | exact Hl].
 Qed.
 
-Lemma enc_members_length l : (length l <= length (enc_members l))%nat.
+Lemma enc_members_length l : (5 * length l <= length (enc_members l))%nat.
 Proof.
   induction l as [|[id st] l IH]; [cbn; lia|]. cbn [enc_members length].
-  rewrite !app_length. unfold put_lp4, put_u32. rewrite app_length, be_length. lia.
+  rewrite !app_length. unfold put_lp4, put_u32. rewrite app_length, be_length.
+  assert (1 <= length (match st with Some s => put_u8 1 ++ enc_ns_body s | None => put_u8 0 end))%nat.
+  { destruct st; [rewrite app_length|]; unfold put_u8; rewrite be_length; lia. }
+  lia.
 Qed.
+Lemma member_guard_ok m bs : N.of_nat (length bs) / 5 <? m = false -> drun (d_member_guard m) bs = MOk (tt, bs).
+Proof. intros H. unfold drun, d_member_guard. rewrite H. reflexivity. Qed.
 
 (** * ClusterView *)
 Theorem view_rt (v : option view) rest :
@@ -176,11 +181,14 @@ Proof.
   rewrite Ems. cbn [members_list]. unfold dec_view.
   rt_step. cbn [N.eqb].
   do 4 rt_step. rewrite Hlen.
-  rt_step.
-  rewrite <- ?app_assoc.
-  erewrite drun_bind_ok.
-  2:{ rewrite <- Hlen. apply dec_members_enc; [|exact Hall].
-      rewrite app_length. pose proof (enc_members_length (mentries ms)). lia. }
+  pose proof (enc_members_length (mentries ms)) as Hml.
+  rewrite <- ?app_assoc. erewrite drun_bind_ok.
+  2:{ unfold d_members. erewrite drun_bind_ok.
+      2:{ apply member_guard_ok. apply N.ltb_ge. rewrite app_length. rewrite <- Hlen.
+          apply N.div_le_lower_bound; lia. }
+      erewrite drun_bind_ok by apply drun_dalloc.
+      rewrite <- Hlen. apply dec_members_enc; [|exact Hall].
+      rewrite app_length. lia. }
   do 3 rt_step.
   rewrite <- ?app_assoc. erewrite drun_bind_ok by (exact Hvr).
   unfold tail. do 3 rt_step.
